@@ -183,6 +183,7 @@ def build_op(expr, vs, form, vals):
 
 def run_case(case):
     from ..refsem import evaluate
+    from ..refsem.expr import conditioning
     from .. import impl, pool
     if case.get('idx'):
         return run_idx(case)
@@ -219,6 +220,14 @@ def run_case(case):
         except (ZeroDivisionError, OverflowError, ValueError, TypeError):
             continue
         if all(math.isfinite(x) and abs(x) < 1e8 for x in refs.values()):
+            # the floating-point value must be determined by the arithmetic: strings whose value moves by more than
+            # 1e-10 when every input moves by 1e-13 (sqrt(sin(pi)), cos(u*sinh(2.5^4))) denote no testable value
+            try:
+                if conditioning(strings['plain'], vals) > 1e-10:
+                    res['ill_conditioned'] = res.get('ill_conditioned', 0) + 1
+                    continue
+            except (ZeroDivisionError, OverflowError, ValueError, TypeError):
+                continue
             good.append((vals, refs))
     if not good:
         res['rejected'] = True
